@@ -159,7 +159,7 @@ func runC16(w *mon.W) {
 	if w.Shard == 0 && !w.Replaying() || w.Only == "distributed-sample" {
 		c16Distributed(w)
 	}
-	n := w.Pick(4000, 40000)
+	n := w.Pick(4000, 150000)
 	tmp := filepath.Join(w.Dir, fmt.Sprintf("c16-%d", w.Shard))
 	os.MkdirAll(tmp, 0755)
 	defer os.RemoveAll(tmp)
